@@ -785,6 +785,9 @@ def build_cases(rng: Any, quick: bool) -> list[ProbeFile]:
     return files
 
 
+CMP_NAME = [True]  # set by run() from the generated EquivCfg (does is_equivalent's NameExpr case compare `name`?)
+
+
 def same(a: str, b: str, aliases: bool = True) -> bool:
     da, db = dump_text(a, aliases), dump_text(b, aliases)
     return da is not None and da == db
@@ -1162,6 +1165,11 @@ def run(ctx) -> None:
     rng = ctx.rng("c06")
     quick = ctx.quick
     files = build_cases(rng, quick)
+    try:
+        gen_cfg = (core.LEAN / "RefurbVerif" / "Generated" / "EquivCfg.lean").read_text()
+        CMP_NAME[0] = "cmpName := true" in gen_cfg
+    except OSError:
+        CMP_NAME[0] = True
     res.rule = (
         "operands: random Python `ast` trees over all expression kinds (names, attributes, subscripts/slices, calls with */**/keywords, "
         "list/tuple/set/dict displays with * and **, unary/binary/bool/compare chains, Int/Float/Complex/Str/Bytes/Ellipsis/True/None, f-strings, "
@@ -1331,9 +1339,13 @@ def run(ctx) -> None:
             if p["check"] == "FURB110" and w is not None and w["eq"] != flagged and not err:
                 res.disagree("FURB110 vs is_equivalent(if_expr, cond)", {"a": p["a"], "b": p["b"], "section": p["section"]}, w["eq"], flagged)
             if want != expected_flag(p, aliases=False):
-                # the operands differ only by an import alias of one object: either verdict is accepted (see assumptions)
+                # the operands differ only by an import alias of one object.  "Differing names never count as the same": since the
+                # NameExpr case compares names (fix 6444e5d, flag cmpName read off the code) such pairs are judged like any other
+                # pair of different operands; while names were not compared either verdict was accepted.
                 res.bump("alias-pairs-flagged" if flagged else "alias-pairs-not-flagged")
-                continue
+                if not CMP_NAME[0]:
+                    continue
+                want = expected_flag(p, aliases=False)
             if flagged == want:
                 continue
             fp = flagged and not want
